@@ -7,6 +7,7 @@ CONSTANTS
   MaxPage = 3
   MaxEnv = 3
   MaxHist = 0
+  CanFail = TRUE
   GeOp = ">="
 VIEW view
 INVARIANTS TypeOK Complete NoBugBranch SeenBelowCursor
